@@ -25,7 +25,9 @@ RULE = (
     "envelope predicate: execute returns a dict with data; errors only as a non-empty list of dicts with string message, path list|None, "
     "locations of positive line/column inside the query text, extensions only when non-empty; syntax errors (per the front end) and failed "
     "operation selection give data null with zero resolver calls; the custom coercer is awaited once per reported error and its return "
-    "values are the errors entries. Distinct = SHA-1 of the request; non-trivial = the query is neither a valid document nor empty (it is "
+    "values are the errors entries; valid requests in which a resolver raises exceptions with non-text / no arguments or a library error "
+    "tagged in place through `.extensions`; refusals for syntax / operation selection carry no `extensions` (rule errors keep theirs) and "
+    "no response shows an annotation written into an earlier response. Distinct = SHA-1 of the request; non-trivial = the query is neither a valid document nor empty (it is "
     "broken text, a mutated document or a selection failure)."
 )
 ASSUMPTIONS = ["'syntax error' is the stand-in front end's judgement (tfv/gqlparse.py); the real libgraphqlparser is absent from the sandbox (DESIGN 1.1)"]
